@@ -85,7 +85,7 @@ def udt(draw, earlier, used_names, used_tids, depth_of):
     nest_ok = [u for u in earlier if depth_of[u["name"]] < 2]
     depth = 0
     for i in range(n):
-        kinds = ["atomic", "atomic", "array", "bools", "hidden"]
+        kinds = ["atomic", "atomic", "array", "bools", "hidden", "vbools"]
         if nest_ok:
             kinds += ["nested", "nested", "nested"]
         strs = [u for u in earlier if u.get("string") is not None]
@@ -117,6 +117,16 @@ def udt(draw, earlier, used_names, used_tids, depth_of):
             arr = draw(st.integers(1, 3))
             members.append({"name": draw(ident(mnames, maxlen=8)), "kind": "atomic", "type": "DWORD", "array": arr, "offset": off, "hidden": False})
             off += 4 * arr
+        elif kind == "vbools":
+            # BOOL members aliasing bits of a VISIBLE integer member (as in predefined types: MESSAGE.Flags, AXIS status words)
+            t = draw(st.sampled_from(["SINT", "INT", "DINT"]))
+            es = ATOMIC[t][1]
+            off = pad_to(off, es) + gap
+            members.append({"name": draw(ident(mnames, maxlen=8)), "kind": "atomic", "type": t, "array": 0, "offset": off, "hidden": False})
+            nb = draw(st.integers(1, min(6, es * 8 - 1)))
+            for pos in draw(st.permutations(list(range(es * 8))))[:nb]:
+                members.append({"name": draw(ident(mnames, maxlen=8)), "kind": "bit", "type": "BOOL", "array": 0, "offset": off + pos // 8, "bit": pos % 8, "hidden": False})
+            off += es
         elif kind == "bools":
             off = off + gap
             host = "ZZZZZZZZZZ%s%d" % (name[:10], off)
